@@ -1,7 +1,7 @@
 (* C13 — ordered exactly-once handling of the task pool under the race-free side condition
    (no step inside the claim window F7 or the overflow-pop window F14). *)
 From Coq Require Import List Arith Bool ZArith Lia Permutation.
-From Dae Require Import C13_Spec C13_Model C13_Proofs C13_Race.
+From Dae Require Import C13_Spec C13_Model C13_Race.
 From Dae.gen Require Import C13_Consts.
 Import ListNotations.
 
@@ -11,6 +11,27 @@ Import ListNotations.
 Definition b2n (b : bool) : nat := if b then 1 else 0.
 Definition count {A} (f : A -> bool) (l : list A) : nat := length (filter f l).
 Arguments count : simpl never.
+
+Lemma nth_error_upd {A} (l : list A) i j x :
+  nth_error (upd l i x) j = if j =? i then (match nth_error l i with Some _ => Some x | None => None end)
+                            else nth_error l j.
+Proof.
+  revert i j; induction l as [|y r IH]; intros i j.
+  - destruct i, j; cbn; try reflexivity; destruct (j =? i); reflexivity.
+  - destruct i, j; cbn; try reflexivity. apply IH.
+Qed.
+
+Lemma nth_nth_error {A} (l : list A) i d x : nth_error l i = Some x -> nth i l d = x.
+Proof. revert i; induction l; intros [|i] H; cbn in *; try discriminate; [now inversion H|auto]. Qed.
+
+Lemma nth_error_nth_some {A} (l : list A) i d : i < length l -> nth_error l i = Some (nth i l d).
+Proof. revert i; induction l; intros [|i] H; cbn in *; try lia; [reflexivity|apply IHl; lia]. Qed.
+
+Lemma upd_overflow {A} (l : list A) i x : length l <= i -> upd l i x = l.
+Proof.
+  revert i; induction l as [|y r IH]; intros i H; destruct i; cbn in *; try reflexivity; try lia.
+  f_equal. apply IH. lia.
+Qed.
 
 Lemma count_nil {A} (f : A -> bool) : count f [] = 0.
 Proof. reflexivity. Qed.
